@@ -15,7 +15,7 @@ RULE = (
     "sample() call; distinct = its (kind,b,t,n,seed,n_chains,chain) tuple; non-trivial = t>1 or b>0 or n_chains>1"
 )
 ASSUMPTIONS = ["non-overlap of streams is decided on the first 4096 64-bit outputs of each stream (no shared value, no shared window)"]
-REQUIRED = {"resets_compared_with_untouched_model": {"quick": 40, "thorough": 250}, "recorded_samples_rechecked": {"quick": 150, "thorough": 900}, "cli_schedules_checked": {"quick": 24, "thorough": 300}, "cli_schedules_with_zero_burnin": {"quick": 12, "thorough": 150}, "captures_at_log_level_DEBUG": {"quick": 30, "thorough": 150}, "schedules_checked": {"quick": 500, "thorough": 2000}, "stream_pairs_checked": {"quick": 200, "thorough": 2000}, "vi_checked": {"quick": 40, "thorough": 250}}
+REQUIRED = {"cli_streams_checked": {"quick": 16, "thorough": 100}, "resets_compared_with_untouched_model": {"quick": 40, "thorough": 250}, "recorded_samples_rechecked": {"quick": 150, "thorough": 900}, "cli_schedules_checked": {"quick": 24, "thorough": 300}, "cli_schedules_with_zero_burnin": {"quick": 12, "thorough": 150}, "captures_at_log_level_DEBUG": {"quick": 30, "thorough": 150}, "schedules_checked": {"quick": 500, "thorough": 2000}, "stream_pairs_checked": {"quick": 200, "thorough": 2000}, "vi_checked": {"quick": 40, "thorough": 250}}
 GRID = {"quick": (12, 5, 8), "thorough": (24, 7, 12)}
 
 
@@ -254,7 +254,7 @@ def run_shard(rec, tier, seed, shard, nshards):
 
         def mk_rng(orig):
             def set_rng(self, r):
-                clog.append(("set_rng", ccnt["steps"]))
+                clog.append(("set_rng", ccnt["steps"], repr(r.bit_generator.state)))
                 return orig(self, r)
 
             return set_rng
@@ -273,6 +273,10 @@ def run_shard(rec, tier, seed, shard, nshards):
             nch = int(rng.integers(1, 4))
             ch = 0 if ci % 3 == 0 else int(rng.integers(nch))
             sd = 0 if ci % 4 == 0 else int(rng.integers(0, 1000))
+            if ci % 4 in (1, 3):
+                # seeds the way scripts make them: nanosecond clocks, 64-bit values and their neighbours, 128-bit entropy
+                sd = [1758000000123456789, 2**53 + 1, 2**63 - 1, 2**64 - 1, 1758000000123456789 + 1, 2**53 + 3, 271828182845904523536028747135266249775][(ci // 2 + int(rng.integers(7))) % 7]
+                rec.count("cli_schedules_with_seeds_beyond_2**53")
             del clog[:]
             ccnt["steps"] = 0
             w = {"b": b, "t": t, "n": n, "n_chains": nch, "chain_index": ch, "seed": sd, "via": "train_model"}
@@ -287,7 +291,14 @@ def run_shard(rec, tier, seed, shard, nshards):
             if b == 0:
                 rec.count("cli_schedules_with_zero_burnin")
             tags = [x[1] for x in clog if x[0] == "state"]
-            check_schedule("train_model-cli", list(clog), tags, b, t, n, res, w)
+            check_schedule("train_model-cli", [x[:2] for x in clog], tags, b, t, n, res, w)
+            # the stream the command line run draws from is the documented one for (seed, n_chains, chain_index): the
+            # generator the library hands a model for the same triple
+            ref_m = CountingModel()
+            sampling.sample(ref_m, ThetaHolder(n_thetas=1), seed=sd, n_chains=nch, chain_index=ch, n_burnin=0, thin=1)
+            got_states = [x[2] for x in clog if x[0] == "set_rng"]
+            rec.count("cli_streams_checked")
+            rec.check(bool(got_states) and got_states[-1] == repr(ref_m.rng.bit_generator.state), "C17/stream/not-a-function-of-triple", lambda: "train_model --seed %d --n-chains %d --chain-index %d hands the model another generator than sample(seed=%d, n_chains=%d, chain_index=%d)" % (sd, nch, ch, sd, nch, ch), w)
 
     # ---------- (c) streams
     import logging
